@@ -60,3 +60,10 @@ chk("C09", "exploration",
     "Scheduling granularity is the pthread call; hardware reorderings are covered only by TSan on observed runs. Only the smallest configuration is enumerated completely; "
     "the rest is bounded by preemptions or sampled.",
     "schedule enumeration of real code under a controlled scheduler + TSan stress", "3/C09")
+chk("C08", "exploration",
+    "gensquashfs and tar2sqfs (ASan build) pack workloads of many distinct equal-size incompressible blocks, block runs drawn from a small pool, equal-size tails and true duplicates while a link-time "
+    "wrapper masks xxh32 to 2/4/8 bits, across compressors, block sizes, -j and -Q (so compared fragment blocks are current, in flight, or re-read from disk). Every file's content is checked through the "
+    "independent parser and rdsquashfs -c, the image through the validator, identical files must share storage, and the hook log must show a byte compare with outcome 'equal' before every share. "
+    "The evidence counts byte compares with outcome 'different' per site; a site with zero is reported as inconclusive.",
+    "Collisions are forced by weakening the checksum, not found for the real 32-bit function; trusted: vp/sqfsimg.py.",
+    "differential content + hook-log invariant under forced checksum collisions", "3/C08")
